@@ -10,6 +10,25 @@ simplifier.check_results), over abstract function strings.
 * `shuffleRemap`              — duplicate_checker.main: uniques permuted by `i`, matches remapped by the inverse
 * `unmergeMatch`              — check_results: a function whose map cannot be verified becomes (a variant of) a new
                                  unique appended after the old ones, with an empty chain
+
+The do_sympy DRIVER (simplifier.do_sympy 754-1044) and the part of duplicate_checker.main around it (139-264), over
+abstract strings, parameterised by an oracle for the CAS step (`sympy_simplify`; `expand_or_factor` only changes dict
+VALUES, never keys, so it is the identity on what is modelled here):
+* `getMaxParam`, `countParams` — get_max_param 48-71 / count_params 74-94 on an abstract `has s j` (`'a%i'%j in s`)
+* `partIdx`                   — `np.atleast_1d(np.squeeze(np.argwhere(nparam == i)))`
+* `cut`                       — `add_inv_subs[j[k]] = t[k]` if the unique had no chain, else `t[k][len(old):]` (843-846)
+* `applyPart`                 — the `for k in range(len(t))` loop 839-846 (in-place writes to `uniq_fun`, `add_inv_subs`)
+* `simplifyPart`, `simplifyAll` — one / all iterations of `for i in range(max_param+1)` 826-846 (= 961-981)
+* `step3`                     — step (3) 852-860 (= 987-995)
+* `rowsFrom`, `RoundOut.idx/subs` — the two round files 880-889 (= 1015-1024)
+* `round`                     — one iteration of either `while old_nuniq != new_nuniq` loop (783-898, 919-1033)
+* `loop`, `doSympy`           — the two loops, `round1_count`, the returned round count
+* `inherit`                   — duplicate_checker 141-142 `all_fun[-nextra:] = [all_fun[f] for f in extra_orig]`
+* `applyRows`, `combine`      — duplicate_checker 221-243 `all_inv_subs[j] = all_inv_subs[j] + inv[i]` over the rounds in order
+Where Python raises (KeyError on a unique that is not a key of the sympy dict, IndexError on a row index past the
+function count or a missing row, TypeError on slicing `None`) the model returns `none`.  An oracle that breaks the
+length contract of sympy_simplify (it returns its three argument lists, updated) also gives `none`: Python would raise
+IndexError if the lists grew and silently process a prefix if they shrank; the real sympy_simplify never does either.
 -/
 namespace ESR.Library
 
@@ -30,6 +49,7 @@ def matchIndexes (a b : List σ) : List Nat := b.map (fun f => a.findIdx (· = f
 inductive Entry (μ : Type) where
   | map (m : μ)
   | nan
+  deriving DecidableEq, Repr
 
 /-- do_sympy step (3): new string = rewritten unique of the function's match; chain extended by that unique's
 additional substitutions. -/
@@ -44,5 +64,248 @@ def shuffleRemap (perm : List Nat) (uniq : List σ) (ms : List Nat) (dflt : σ) 
 /-- check_results: new match of function `i` (string `f`) when it is un-merged: index after the old uniques of the
 first occurrence of its string among the un-merged strings -/
 def unmergeMatch (nuniq : Nat) (newFuns : List σ) (f : σ) : Nat := nuniq + firstIndex (uniqueKeys newFuns) f
+
+/-! ## the do_sympy driver -/
+
+section DoSympy
+variable {μ : Type}
+
+/-- a Python chain variable: `None` or a list of entries -/
+abbrev OChain (μ : Type) := Option (List (Entry μ))
+
+/-- `sympy_simplify(f, e, t, i, expand_fun, tmax, check_perm)` as seen by the driver: from the strings of the uniques
+with `i` parameters and their current chains to new strings and new chains (the sympy objects `e` travel with the
+strings and are not modelled). -/
+abbrev Oracle (σ μ : Type) := (expandFun checkPerm : Bool) → (nparam : Nat) → List σ → List (OChain μ) → List σ × List (OChain μ)
+
+/-- an oracle that rewrites string by string: `rw i s` = (new string, what is appended to the chain; `none` leaves the
+chain variable as it is, `None` included) -/
+def pointwiseOracle (rw : Nat → σ → σ × OChain μ) : Oracle σ μ := fun _ _ i f t =>
+  (f.map (fun s => (rw i s).1),
+   List.zipWith (fun s o => match (rw i s).2 with
+                            | none => o
+                            | some a => some (o.getD [] ++ a)) f t)
+
+/-- count_params for one string: `for j in range(max_param-1, -1, -1): if 'a%i'%j in s: nparam = j+1; break` -/
+def countParams (has : σ → Nat → Bool) (maxParam : Nat) (s : σ) : Nat :=
+  match (List.range maxParam).reverse.find? (has s) with
+  | some j => j + 1
+  | none => 0
+
+/-- get_max_param: `k` is `max_param + 1`; the `while len(with_ai) > 0` loop needs fuel for an abstract `has`. -/
+def getMaxParamAux (has : σ → Nat → Bool) : Nat → List σ → Nat → Option Nat
+  | 0, _, _ => none
+  | fuel + 1, withAi, k =>
+    if withAi.isEmpty then some (k - 1) else getMaxParamAux has fuel (withAi.filter (fun f => has f k)) (k + 1)
+
+def getMaxParam (has : σ → Nat → Bool) (fuel : Nat) (allFun : List σ) : Option Nat := getMaxParamAux has fuel allFun 0
+
+/-- indices of the uniques with `i` parameters, ascending -/
+def partIdx (np0 : List Nat) (i : Nat) : List Nat := (List.range np0.length).filter (fun m => np0.getD m 0 == i)
+
+/-- what a unique adds this round: the whole returned chain if it had none, else the tail after the old length -/
+def cut (old new : OChain μ) : OChain μ :=
+  match old with
+  | none => new
+  | some o => some ((new.getD []).drop o.length)
+
+/-- the oracle kept sympy_simplify's contract: three lists of the length it was given, and a chain that was a list is
+still a list (else `t[k][len(...):]` is a TypeError) -/
+def wfOut (t : List (OChain μ)) (f' : List σ) (t' : List (OChain μ)) : Bool :=
+  f'.length == t.length && t'.length == t.length && (List.zipWith (fun o n => o.isNone || n.isSome) t t').all id
+
+/-- `for k in range(len(t)): uniq_fun[j[k]] = f[k]; add_inv_subs[j[k]] = …` -/
+def applyPart (uniqInv : List (OChain μ)) :
+    List Nat → List σ → List (OChain μ) → List σ × List (OChain μ) → List σ × List (OChain μ)
+  | jk :: j, fk :: f, tk :: t, (u, a) =>
+      applyPart uniqInv j f t (u.set jk fk, a.set jk (cut (uniqInv.getD jk none) tk))
+  | _, _, _, acc => acc
+
+/-- one iteration of `for i in range(max_param+1)`; `acc` = (`uniq_fun`, `add_inv_subs`) so far -/
+def simplifyPart (simp : Oracle σ μ) (expandFun checkPerm : Bool) (dflt : σ) (np0 : List Nat)
+    (uniqInv : List (OChain μ)) (acc : List σ × List (OChain μ)) (i : Nat) : Option (List σ × List (OChain μ)) :=
+  let j := partIdx np0 i
+  let f := j.map (fun m => acc.1.getD m dflt)
+  let t := j.map (fun m => uniqInv.getD m none)
+  let out := simp expandFun checkPerm i f t
+  if wfOut t out.1 out.2 then some (applyPart uniqInv j out.1 out.2 acc) else none
+
+def simplifyAll (simp : Oracle σ μ) (expandFun checkPerm : Bool) (dflt : σ) (np0 : List Nat)
+    (uniqInv : List (OChain μ)) : List Nat → List σ × List (OChain μ) → Option (List σ × List (OChain μ))
+  | [], acc => some acc
+  | i :: is, acc =>
+    match simplifyPart simp expandFun checkPerm dflt np0 uniqInv acc i with
+    | none => none
+    | some acc' => simplifyAll simp expandFun checkPerm dflt np0 uniqInv is acc'
+
+/-- step (3): every function takes the string of its unique; a non-empty addition is appended to its chain -/
+def step3 (uniq0 uniq' : List σ) (add : List (OChain μ)) (dflt : σ) (allFun : List σ) (allInv : List (OChain μ)) :
+    List σ × List (OChain μ) :=
+  let ms := allFun.map (firstIndex uniq0)
+  (ms.map (fun m => uniq'.getD m dflt),
+   List.zipWith (fun c m => match add.getD m none with
+                            | some (x :: xs) => some (c.getD [] ++ x :: xs)
+                            | _ => c) allInv ms)
+
+/-- what one round leaves behind: the flags it passed to sympy_simplify and `all_inv_subs` (one entry per function) -/
+structure RoundOut (μ : Type) where
+  expandFun : Bool
+  checkPerm : Bool
+  allInv : List (OChain μ)
+
+/-- (index, chain) for every function whose chain is not `None`, `k` = index of the head -/
+def rowsFrom : Nat → List (OChain μ) → List (Nat × List (Entry μ))
+  | _, [] => []
+  | k, none :: rest => rowsFrom (k + 1) rest
+  | k, some c :: rest => (k, c) :: rowsFrom (k + 1) rest
+
+/-- lines of `inv_idx_<n>_round_<r>.txt` -/
+def RoundOut.idx (r : RoundOut μ) : List Nat := (rowsFrom 0 r.allInv).map (·.1)
+/-- rows of `inv_subs_<n>_round_<r>.txt` -/
+def RoundOut.subs (r : RoundOut μ) : List (List (Entry μ)) := (rowsFrom 0 r.allInv).map (·.2)
+
+structure St (σ μ : Type) where
+  allFun : List σ
+  /-- keys of the `all_sym` dict, in insertion order -/
+  symKeys : List σ
+  oldN : Nat
+  newN : Nat
+  /-- `count` of the running loop -/
+  count : Nat
+  /-- the round files written so far; position = `round1_count + count` of the file name -/
+  rounds : List (RoundOut μ)
+
+/-- One iteration of a `while old_nuniq != new_nuniq` body.  `simps g` is the CAS at global round `g`. -/
+def round (simps : Nat → Oracle σ μ) (np : σ → Nat) (maxParam : Nat) (dflt : σ) (expandFun : Bool) (st : St σ μ) :
+    Option (St σ μ) :=
+  let allInv0 : List (OChain μ) := List.replicate st.allFun.length none       -- all_inv_subs = [None] * len(all_fun)
+  let uniq0 := uniqueKeys st.allFun                                            -- (1)
+  if uniq0.all (fun u => decide (u ∈ st.symKeys)) then                          -- all_sym = [all_sym[u] for u in uniq_fun]
+    let uniqInv := uniq0.map (fun u => allInv0.getD (st.allFun.findIdx (· = u)) none)
+    let np0 := uniq0.map np                                                    -- (2)
+    let checkPerm := !expandFun && st.count != 0
+    match simplifyAll (simps st.rounds.length) expandFun checkPerm dflt np0 uniqInv (List.range (maxParam + 1))
+            (uniq0, List.replicate uniq0.length none) with
+    | none => none
+    | some (uniq', add) =>
+      let r := step3 uniq0 uniq' add dflt st.allFun allInv0                    -- (3)
+      some { allFun := r.1
+             symKeys := uniqueKeys uniq'                                       -- dict(zip(uniq_fun, all_sym))
+             oldN := st.newN
+             newN := (uniqueKeys r.1).length                                   -- len(set(all_fun))
+             count := st.count + 1
+             rounds := st.rounds ++ [{ expandFun := expandFun, checkPerm := checkPerm, allInv := r.2 }] }
+  else none
+
+/-- `while old_nuniq != new_nuniq` with at most `fuel` iterations; the flag says whether the loop condition is false at
+the end (termination is not claimed: the flag is part of the output). -/
+def loop (simps : Nat → Oracle σ μ) (np : σ → Nat) (maxParam : Nat) (dflt : σ) (expandFun : Bool) :
+    Nat → St σ μ → Option (St σ μ × Bool)
+  | 0, st => some (st, st.oldN == st.newN)
+  | fuel + 1, st =>
+    if st.oldN = st.newN then some (st, true)
+    else match round simps np maxParam dflt expandFun st with
+      | none => none
+      | some st' => loop simps np maxParam dflt expandFun fuel st'
+
+structure Result (σ μ : Type) where
+  allFun : List σ
+  /-- dict keys when expand_or_factor(method='expand') / (method='factor') is called -/
+  keysExpand : List σ
+  keysFactor : List σ
+  nround : Nat
+  rounds : List (RoundOut μ)
+  /-- both loops reached their exit condition within the fuel -/
+  finished : Bool
+
+def doSympy (simps : Nat → Oracle σ μ) (np : σ → Nat) (maxParam : Nat) (dflt : σ) (fuel : Nat)
+    (allFun symKeys : List σ) : Option (Result σ μ) :=
+  let st0 : St σ μ := { allFun := allFun, symKeys := symKeys, oldN := 0, newN := allFun.length, count := 0, rounds := [] }
+  match loop simps np maxParam dflt false fuel st0 with
+  | none => none
+  | some (st1, d1) =>
+    let round1 := st1.count
+    match loop simps np maxParam dflt true fuel { st1 with count := 0, oldN := 0 } with
+    | none => none
+    | some (st2, d2) =>
+      some { allFun := st2.allFun, keysExpand := st1.symKeys, keysFactor := st2.symKeys, nround := round1 + st2.count,
+             rounds := st2.rounds, finished := d1 && d2 }
+
+/-! ### duplicate_checker.main around do_sympy -/
+
+/-- `all_fun[-nextra:] = [all_fun[f] for f in extra_orig]` for `nextra > 0` (IndexError → `none`) -/
+def inherit (allFun : List σ) (extraIdx : List Nat) : Option (List σ) :=
+  if extraIdx.isEmpty then some allFun
+  else match extraIdx.mapM (fun f => allFun[f]?) with
+    | none => none
+    | some new => some (allFun.take (allFun.length - extraIdx.length) ++ new)
+
+/-- `for i, j in enumerate(idx): all_inv_subs[j] = all_inv_subs[j] + inv[i]` -/
+def applyRows : List (List (Entry μ)) → List Nat → List (List (Entry μ)) → Option (List (List (Entry μ)))
+  | cur, [], _ => some cur
+  | _, _ :: _, [] => none
+  | cur, j :: idx, c :: subs => if j < cur.length then applyRows (cur.set j (cur.getD j [] ++ c)) idx subs else none
+
+/-- the `for r in range(nround)` loop; a file is (`inv_idx` lines, `inv_subs` rows); `idx = []` when there are no rows -/
+def combineFrom : List (List (Entry μ)) → List (List Nat × List (List (Entry μ))) → Option (List (List (Entry μ)))
+  | cur, [] => some cur
+  | cur, (idx, subs) :: rest =>
+    match applyRows cur (if subs.isEmpty then [] else idx) subs with
+    | none => none
+    | some cur' => combineFrom cur' rest
+
+/-- `all_inv_subs = [[]] * ntot` then the rounds in order -/
+def combine (ntot : Nat) (files : List (List Nat × List (List (Entry μ)))) : Option (List (List (Entry μ))) :=
+  combineFrom (List.replicate ntot []) files
+
+/-- what duplicate_checker.main leaves on disk (besides the round files in `res`) -/
+structure MainOut (σ μ : Type) where
+  /-- `get_max_param` of the generated strings (used for `load_subs` / `get_all_dup`) -/
+  maxParam : Nat
+  /-- all_equations_<n>.txt -/
+  allEq : List σ
+  res : Result σ μ
+  /-- unique_equations_<n>.txt (shuffled) -/
+  uniq : List σ
+  /-- matches_<n>.txt -/
+  matchIdx : List Nat
+  /-- inv_subs_<n>.txt -/
+  invSubs : List (List (Entry μ))
+
+/-- duplicate_checker.main 82-264 with the generator's output (`gen` = strings of the original trees followed by those
+of the extra trees, `exOrig` = string of each extra tree's original) as input; `symp` stands for initial_sympify
+(string by string), `cancel mp` for `simplify_inv_subs(·, get_all_dup(mp))`, `perm` for the shuffled index array. -/
+def dupMain (has : σ → Nat → Bool) (symp : σ → σ) (simps : Nat → Oracle σ μ)
+    (cancel : Nat → Option (List (Entry μ)) → Option (List (Entry μ))) (dflt : σ) (fuelMP fuel : Nat)
+    (gen exOrig : List σ) (perm : List Nat) : Except String (MainOut σ μ) :=
+  match getMaxParam has fuelMP gen with                                        -- 88
+  | none => .error "get_max_param-fuel"
+  | some mp =>
+  if exOrig.any (fun f => !gen.contains f) then .error "KeyError-get_match_indexes" else
+  let exIdx := matchIndexes gen exOrig                                       -- 105
+  let nextra := exOrig.length
+  let allEq := gen.map symp                                                  -- 107-122 (string by string)
+  let symKeys := uniqueKeys ((gen.take (gen.length - nextra)).map symp)      -- keys of all_sym: originals only
+  match inherit allEq exIdx with                                             -- 141-142
+  | none => .error "IndexError-extra_orig"
+  | some allFun =>
+  match getMaxParam has fuelMP allFun with                                   -- do_sympy 775
+  | none => .error "get_max_param-fuel"
+  | some mp2 =>
+  match doSympy simps (countParams has mp2) mp2 dflt fuel allFun symKeys with
+  | none => .error "do_sympy-raised"
+  | some res =>
+  if res.nround ≠ res.rounds.length then .error "nround" else
+  let uniq := uniqueKeys res.allFun                                          -- 159-160
+  let ms := res.allFun.map (firstIndex uniq)
+  if perm.length ≠ uniq.length then .error "perm-length" else
+  let sh := shuffleRemap perm uniq ms dflt                                   -- 167-172
+  match combine allFun.length (res.rounds.map (fun r => (r.idx, r.subs))) with   -- 221-243
+  | none => .error "IndexError-combine"
+  | some chains =>
+  .ok { maxParam := mp, allEq := allEq, res := res, uniq := sh.1, matchIdx := sh.2,
+        invSubs := chains.map (fun c => (cancel mp (some c)).getD []) }     -- 254-261
+
+end DoSympy
 
 end ESR.Library
